@@ -216,6 +216,10 @@ func runPeSign(sc M) {
 						}
 					}}
 				}
+				if sc["slow"] == true {
+					// a signer that takes longer than a second (a token, an HSM, a remote key service): the clock moves on while it works
+					sg = slowSigner{sg}
+				}
 				_, err := p.Sign(sg, testCert(ck[0], ck[1], ck[2]))
 				return err
 			case "signfail":
